@@ -9,7 +9,9 @@
    expr  := INT | (v N) | (un OP e) | (bin OP a b) | (and a b) | (or a b) | (cond c a b) | (call F e ..) | (idx A e ..)
    stmt  := (decl cst sta ty x) | (decl cst sta ty x e) | (arr cst ty x (dim ..) (e ..)) | (asg lv e) | (casg OP lv e)
           | (incdec pre inc lv) | (expr e) | (if c (s ..) (s ..)) | (while c (s ..)) | (for (s ..) c (s ..) (s ..))
-          | (break) | (continue) | (ret) | (ret e) | (block s ..) | (print nl e ..)                                  *)
+          | (break) | (continue) | (ret) | (ret e) | (block s ..) | (print nl e ..)
+          | (struct SN x fld ..) | (copy x y fld ..)      fld := ty | (ty dim ..)
+   member j of struct variable x is the cell 1000 + 8*x + j: read (v CELL) / (idx CELL e ..), same as lvalues  *)
 open Lang_model
 
 type sx = A of string | L of sx list
@@ -88,6 +90,10 @@ let lval_of = function
   | L (A "idx" :: a :: idx) -> LIdx (nat_a a, List.map expr_of idx)
   | _ -> failwith "lval"
 let list_of = function L l -> l | A _ -> failwith "list expected"
+let fld_of = function
+  | A t -> { fty = ty_of t; fdims = [] }
+  | L (A t :: dims) -> { fty = ty_of t; fdims = List.map nat_a dims }
+  | _ -> failwith "fld"
 let rec stmt_of = function
   | L [A "decl"; c; s; t; x] -> SDecl (bool_a c, bool_a s, ty_of (atom t), nat_a x, None)
   | L [A "decl"; c; s; t; x; e] -> SDecl (bool_a c, bool_a s, ty_of (atom t), nat_a x, Some (expr_of e))
@@ -106,6 +112,8 @@ let rec stmt_of = function
   | L [A "ret"; e] -> SReturn (Some (expr_of e))
   | L (A "block" :: ss) -> SBlock (List.map stmt_of ss)
   | L (A "print" :: n :: args) -> SPrint (bool_a n, List.map expr_of args)
+  | L (A "struct" :: sn :: x :: flds) -> SStruct (nat_a sn, nat_a x, List.map fld_of flds)
+  | L (A "copy" :: x :: y :: flds) -> SCopy (nat_a x, nat_a y, List.map fld_of flds)
   | _ -> failwith "stmt"
 and stmts_of x = List.map stmt_of (list_of x)
 
